@@ -194,6 +194,11 @@ def side_check(ex, prev, aev, nxt):
                         {"all": [f"{s}: {t}" for s, t in probs[:8]]})
 
 
+def _hook(state):
+    probs, _ = problems(state)
+    return [(sig, f"[generated grammar] {txt}") for sig, txt in probs[:1]]
+
+
 HOSTS = ["c07", "c05", "c06", "c10", "c09lib"]
 
 
@@ -224,6 +229,29 @@ def run(rep, tier):
     rep.add("c09_states_checked", n_cut)
     rep.set("c09_states_checked_after_save_restore_or_ageing", n_cut)
     hosts.append("c11 (cut states)")
+    # the generated control-flow grammar of C12 (nested if / while / when / groups / break / continue / return / abort),
+    # every state reached by its interpreter runs
+    from vf.props import c12, c12_dyn
+    c12_dyn.STATE_HOOK[0] = _hook
+    try:
+        tk, _ = c12.tasks(tier)
+        tk = [t for t in tk if t[0] in ("v2cur", "v2ctl", "v2rich", "v2pair") or (t[0] == "whenfam" and t[1] == "2.x")]
+        if tier == "quick":  # quick: control grammar up to 4 nodes, rich statements, curated and when families
+            tk = [t for t in tk if not (t[0] == "v2ctl" and t[1] > 4) and t[0] != "v2pair"]
+        n_g = n_p = 0
+        for res in par.pmap(c12.work, tk, chunksize=1):
+            n_g += res["counts"].get("hook_states", 0)
+            n_p += res["counts"].get("v2_programs_run_on_interpreter", 0)
+            for v in res["violations"]:
+                if v["signature"].startswith("HOOK/"):
+                    rp = dict(v["replay"], engine="E1-c12-grammar")
+                    rep.violation(v["signature"][5:], v["what"], rp)
+    finally:
+        c12_dyn.STATE_HOOK[0] = None
+    rep.add("c09_states_checked", n_g)
+    rep.set("c09_states_checked_in_generated_grammar_programs", n_g)
+    rep.set("generated_grammar_programs_run", n_p)
+    hosts.append("c12 generated grammar (interpreter runs)")
     rep.set("hosts", hosts)
     rep.set("rule", "every state reached by the host explorations; non-trivial = state with >=2 waiting heads")
     rep.set("distinct_nontrivial", rep.cov.get("c09_states_with_2plus_waiting_heads", 0))
@@ -231,6 +259,17 @@ def run(rep, tier):
 
 
 def replay(rp):
+    if rp.get("kind") == "v2dyn" or rp.get("engine") == "E1-c12-grammar":
+        from vf.props import c12, c12_dyn
+        print("program:\n" + rp["source"])
+        st = c12.compile_v2(rp["source"])
+        c12_dyn.install()
+        hist = [(tuple(a), tuple(v)) for a, v in rp.get("history") or []]
+        for aev, _ in c12_dyn.run_history(st, v2x.UIDS.n, hist):
+            print("event", aev)
+        probs, _ = problems(st)
+        print("expected: no problems; observed:", probs or "(none)")
+        return 0
     from vf.props.c07 import replay as r
     v2x.SIDE_CHECKS["C09"] = side_check
     return r(rp)
